@@ -403,7 +403,7 @@ func (e *Exec) eval(fr *frame, v ssa.Value) Value {
 				return FNeg(t)
 			}
 			w, sg, _ := intType(x.Type())
-			return Wrap1(RawSub(K(0), t), w, sg)
+			return e.wrapT(RawSub(K(0), t), w, sg, true)
 		case token.XOR:
 			t := a.(*Term)
 			w, sg, _ := intType(x.Type())
@@ -810,9 +810,9 @@ func (e *Exec) binop(op token.Token, a, b Value, ta, tb types.Type) Value {
 	w, sg, _ := intType(ta)
 	switch op {
 	case token.ADD:
-		return Wrap1(RawAdd(x, y), w, sg)
+		return e.wrapT(RawAdd(x, y), w, sg, true)
 	case token.SUB:
-		return Wrap1(RawSub(x, y), w, sg)
+		return e.wrapT(RawSub(x, y), w, sg, true)
 	case token.LSS:
 		return Lt(x, y)
 	case token.LEQ:
@@ -825,7 +825,7 @@ func (e *Exec) binop(op token.Token, a, b Value, ta, tb types.Type) Value {
 		if !x.IsConst() && !y.IsConst() {
 			panic(unsupported("symbolic*symbolic multiplication"))
 		}
-		return Wrap(RawMul(x, y), w, sg)
+		return e.wrapT(RawMul(x, y), w, sg, false)
 	case token.QUO, token.REM:
 		if !y.IsConst() {
 			e.obligation(Eq(y, K(0)), "panic", "integer divide by zero")
@@ -837,7 +837,7 @@ func (e *Exec) binop(op token.Token, a, b Value, ta, tb types.Type) Value {
 		}
 		if op == token.QUO {
 			// MinInt / -1 wraps
-			return Wrap(RawQuo(x, y), w, sg)
+			return e.wrapT(RawQuo(x, y), w, sg, false)
 		}
 		return RawRem(x, y)
 	case token.SHL:
@@ -913,7 +913,7 @@ func (e *Exec) convert(v Value, from, to types.Type) Value {
 			if fw <= w && (fsg == sg || (!fsg && fw < w)) {
 				return x // value-preserving widening
 			}
-			return Wrap(x, w, sg)
+			return e.wrapT(x, w, sg, false)
 		case t.Info()&types.IsFloat != 0:
 			x := v.(*Term)
 			s := sortOf(to)
